@@ -662,6 +662,21 @@ c_mem(void)
         c.a[i] = (2 + i < NF) ? jarg(F[2 + i]) : NULL;
 
     nents = 0;
+    if (strcmp(F[0], "memnp") == 0) {
+        /* no pins: the arguments are owned by this call alone, exactly as an application would own them, so that a
+         * node the library releases once too often IS freed and the sanitizer sees the later use */
+        fflush(stdout);
+        binds[b].fn(&c);
+        printf("V=%s\tD=0", c.ok ? "ok" : "fail");
+        json_decref(c.ret);
+        for (int i = 0; i < nj; i++)
+            json_decref(c.a[i]);
+        if (live_blocks != base)
+            sweep_foreign_frees();
+        printf("\tL=%zu", live_blocks - base);
+        fflush(stdout);
+        return;
+    }
     for (int i = 0; i < nj; i++) {
         char p[16];
         snprintf(p, sizeof(p), "a%d", i);
@@ -753,6 +768,7 @@ c_mem(void)
 
 static const cmd_t cmds_mem[] = {
     { "mem", c_mem },
+    { "memnp", c_mem },
     { NULL, NULL }
 };
 REGISTER(cmds_mem)
